@@ -910,6 +910,13 @@ func (s *Server) RemoteHello(
 	s.lastPushData.queueTick = export.QueueTick
 	s.lastPushData.mTrackedTimeSum = tTrackedSum
 	s.lastPush = time.Now()
+	// the tracer hasn't seen any transition of the source yet, so the snapshot
+	// just sent is its latest one (not the empty placeholder, which would be
+	// diffed against and then memorized as pushed)
+	if s.tracer.dataLatest == nil || s.tracer.dataLatest.tracked == nil {
+		d := *s.lastPushData
+		s.tracer.dataLatest = &d
+	}
 	s.clientId.Store(&req.Id)
 
 	s.log("RemoteHello: t%v q%d", tTrackedSum, export.QueueTick)
